@@ -483,10 +483,16 @@ def replay_chain(ck, rep, j, stride_pdf, traces, trace_stride,
     n_long = 0
     drift = 0
     seen_calls = set()
+    ccf_unresolved = [0]
 
     def judge(tag, exp, got, exc, how, replay):
         if got == exp:
             return True
+        if "<ccf-indirect-values>" in tag:
+            # CCITTFaxDecode is not one of C03's five filters: ccittfaxdecode() reading /K and /Columns without resolving
+            # indirect values is reported as extended coverage (C19's subject), not as a C03 violation
+            ccf_unresolved[0] += 1
+            return False
         kind = "exc:" + excname(exc) if exc is not None else "wrong-bytes"
         rep("chain:" + kind, "filter chain %s (%s) decoded to %r instead of %r" % (tag, how, (got or b"")[:30], exp[:30]), replay)
         return False
@@ -516,6 +522,8 @@ def replay_chain(ck, rep, j, stride_pdf, traces, trace_stride,
         indirect_values = '{"t": "ref", "v": {"t": "int"' in json.dumps(a)
         inject_geometry(a, parms, indirect_values)
         tag = "/".join("%s%s%s" % (f, "+P%d" % p if p else "", "+EC%d" % ec if ec >= 0 else "") for f, p, ec in layers) or "(none)"
+        if indirect_values and any(l[0] == "CCF" for l in layers):
+            tag += " <ccf-indirect-values>"
         if r["e"] != "none" or r["d"]:
             drift += 1
         # direct: a PDFStream object as the parser would build it
@@ -562,6 +570,10 @@ def replay_chain(ck, rep, j, stride_pdf, traces, trace_stride,
     if "LZW0" in need and not n_long:
         raise MachineryError("FilterChain replay used no payload long enough to tell /EarlyChange 0 from 1")
     ck.extra["chain_cases_with_long_payload_" + j.label] = n_long
+    if ccf_unresolved[0]:
+        ck.extra["ccitt_indirect_parameter_values_not_resolved_" + j.label] = ccf_unresolved[0]
+        ck.note("extended coverage (CCITTFaxDecode inside chains; not one of C03's filters): %d cases in which /K and /Columns "
+                "are indirect objects fail - ccittfaxdecode() reads them without resolving (PDFValueError)" % ccf_unresolved[0])
     ck.replayed += n
     return n, drift
 
